@@ -129,6 +129,22 @@ type FS struct {
 	fn func(uint64) uint64
 }
 
+type SW struct {
+	items []uint64
+}
+
+func mkXs(n uint64) []uint64 {
+	return make([]uint64, n)
+}
+
+func sumSlice(ys []uint64) uint64 {
+	var acc uint64 = 0
+	for _, v := range ys {
+		acc = acc + v
+	}
+	return acc
+}
+
 const K1 uint64 = 10
 
 const K32 uint32 = 7
